@@ -36,7 +36,8 @@ def reset():
 
 
 def key(kwargs):
-    return tuple(sorted((k, _plain(v)) for k, v in kwargs.items()))
+    return tuple(sorted((k, _plain(v)) for k, v in kwargs.items()
+                        if not isinstance(v, (list, tuple, np.ndarray))))
 
 
 def _plain(v):
@@ -71,7 +72,8 @@ def scalar(kwargs):
     together span < 0.1 * 1000^i; at most 5 arguments (float53 is exact
     enough up to 1000^4 * 48 / 0.25)."""
     tot = 0.0
-    for i, k in enumerate(sorted(kwargs)):
+    names = [k for k in sorted(kwargs) if not isinstance(kwargs[k], (list, tuple, np.ndarray))]
+    for i, k in enumerate(names):
         tot += code(kwargs[k]) * (1000.0 ** i) * (1 + (ord(k[0]) - 96) / 64.0)
     return tot
 
@@ -86,7 +88,7 @@ def value(kind, kwargs):
         return (s, -s - 1.0)
     if kind == "tuple3":
         return (s, -s - 1.0, s * 0.5 + 3.0)
-    if kind == "array":  # one output that is a length-3 list
+    if kind in ("array", "array-constdim"):  # one output that is a length-3 list
         return [s, s + 0.5, -s]
     if kind == "scalar+array":  # two outputs: scalar and 2x2 nested list
         return (s, [[s, s + 1.0], [s + 2.0, -s]])
